@@ -159,6 +159,6 @@ EXPORT void cplx_to_tnx32_simple(uint32_t m, double divisor, uint32_t log2overhe
     p->last_divisor = divisor;
     p->last_log2over = log2overhead;
   }
-  SPQLIOS_VERIF_EVENT(2, 13, log2m(m), p->p.m, *(int64_t*)&p->last_divisor, (int64_t)p->last_log2over);
+  SPQLIOS_VERIF_EVENT(2, 13, log2m(m), p->p.m, spqlios_verif_dbits(p->last_divisor), (int64_t)p->last_log2over);
   p->p.function(&p->p, r, x);
 }
